@@ -6,18 +6,24 @@
      C06_no_conflict_partial   (model-level: a pending WriteAt and a concurrent read of the same
                                 file never touch the same entry; PARTIAL by nature: a Rocq model
                                 has no Go memory model -- the race detector runs on the harness)
-   NOT proved (statements: Readers.reads_linearizable_statement,
-   Readers.stable_entry_intact_statement); evidence is the sched06 stream: the model and
-   the implementation agree on every forced schedule, every read of every forced and
-   free-running history is checked by the Go history checker (the mirror of
-   Readers.lin_check), and `Readers.lin_check` evaluates to true on the Examples below:
-     C06_reads_linearizable, C06_stable_entry_intact.
-   What is missing for them: the refcount/finalizer/ownership invariant (a validated
-   holder of state x keeps the finalizers of all states >= x from running) and the
-   argument that a value read through a retired state object was current at the
-   time the commitIdx it depends on was published. *)
+   Proved for every program list with a single writer thread and every schedule:
+     C06_stable_entry_intact   (no read ever goes through a closed or deleted file: IOErr is never
+                                recorded; consequence of the handle-ownership invariant
+                                CloseInv2.Inv2, see Props/C14.v)
+   NOT proved (statement: Readers.reads_linearizable_statement): C06_reads_linearizable.
+   Evidence is the sched06 stream: the model and the implementation agree on every forced
+   schedule, every read of every forced and free-running history is checked by the Go
+   history checker, and `Readers.lin_check` evaluates to true on the Examples below.
+   The statement was corrected in this round: a read that overlaps Close may return ErrClosed
+   as soon as Close has set the closed flag, which is earlier than the swap of the state
+   object (Example C06_ex_close_window: with the former clause `spec_read = ErrClosed` the
+   read below had no linearization point).
+   What is missing for the proof: the argument that the value read through a retired state
+   object x equals the abstract value of a state that was current between invoke and return
+   (the view through x changes only when the writer publishes commitIdx of a tail that x
+   shares with the current state, and then agrees with the current state). *)
 From Coq Require Import List Arith Bool.
-From RW Require Import Conc.Sys Conc.Close Conc.CloseSafe Conc.CloseThm Conc.Readers.
+From RW Require Import Conc.Sys Conc.Close Conc.CloseSafe Conc.CloseReach Conc.CloseThm Conc.CloseThm2 Conc.Readers.
 Import ListNotations.
 
 Theorem C06_visible_only_durable : forall progs extra s,
@@ -40,6 +46,12 @@ Theorem C06_no_conflict_partial : forall progs extra s,
 Proof. exact no_conflict_file. Qed.
 Print Assumptions C06_no_conflict_partial.
 
+Theorem C06_stable_entry_intact : forall w progs extra sch t th,
+  single_writer w progs extra ->
+  nth_error (ths (run step (init progs extra) sch)) t = Some th -> ~ In IOErr (t_outs th).
+Proof. exact stable_entry_intact. Qed.
+Print Assumptions C06_stable_entry_intact.
+
 (* ---- Examples: the per-read checker on concrete schedules ---------------------------- *)
 (* writer: append 1,2 (tag 1), tail truncation to 1, re-append 2,3 with tag 7, head truncation;
    reader 1 sees entry 2 with tag 1 before and tag 7 after the re-append *)
@@ -53,3 +65,13 @@ Example C06_ex_reads :
   map t_outs (firstn 3 (ths s)) =
   [[Ok 0; Ok 0; Ok 0; Ok 0]; [Ok 1; Ok 1; Ok 7]; [Ok 1; Ok 1; Ok 7]] /\ crashed s = false.
 Proof. vm_compute. split; reflexivity. Qed.
+
+(* a read that starts after Close set the flag and before Close swapped the state object
+   returns ErrClosed although the current state object is still the open one *)
+Example C06_ex_close_window :
+  let s1 := run step (init [[OFirst]; [OClose]] []) [1] in
+  let s2 := run step s1 [0] in
+  g_closed (sh s1) = true /\ spec_read (sh s1) OFirst = Some (Ok 0) /\
+  map t_outs (firstn 1 (ths s2)) = [[ErrClosed]] /\
+  lin_check (init [[OFirst]; [OClose]] []) [1; 0] = true.
+Proof. vm_compute. repeat split; reflexivity. Qed.
